@@ -13,6 +13,15 @@ RULE = ("A: TLC grid - for each of the 7 directives: 2 parameter sets x all 128 
 
 def events(ctx):
     rng = ctx.rng
+    from ..core import source_constants
+    from ..ops_cfdp import mk_pdu
+    for c in source_constants():
+        for kind, params in (("eof", {"cond": 0, "checksum": [1, 2, 3, 4], "size": [9], "fault": []}), ("prompt", {"resp": 1}),
+                             ("ack", {"acked": 4, "cond": 0, "tstatus": 1})):
+            cfg = {"crc": 0, "large": 0, "mode": 0, "segctrl": 0, "dir": 0, "src": [1], "dst": [2], "seq": [3]}
+            raw = list(bytes(mk_pdu(kind, cfg, params)[0].pack()))
+            yield record("pdu.unpack", {"want": kind, "octets": list(c) + raw})
+            yield record("pdu.unpack", {"want": "any", "octets": list(c) + raw[len(c):]})
     for k in DIRECTIVES:
         for _ in range(ctx.q(5000, 300000)):
             cfg = rnd_cfg(rng)
